@@ -29,7 +29,7 @@ Proof.
   destruct st as [|[er mr] [|[el ml] s]]; try discriminate. cbn.
   destruct (term_eqb el (TPat l) && term_eqb er (TPat r)) eqn:E; [|discriminate].
   apply andb_true_iff in E. destruct E as [E1 E2]. apply term_eqb_eq in E1, E2. subst. inv H.
-  cbn. rewrite !pat_eqb_refl. cbn. unfold rn_tracker, set_tstack. cbn. rewrite Hmk. reflexivity.
+  cbn. rewrite !pat_eqb_refl. cbn. unfold rn_tracker, set_tstack, rn_sterm. cbn. rewrite Hmk. reflexivity.
 Qed.
 
 Lemma unary_rn : forall (mk:pat -> pat) p tr tr',
@@ -41,7 +41,7 @@ Proof.
   destruct st as [|[e m] s]; try discriminate. cbn.
   destruct (term_eqb e (TPat p)) eqn:E; [|discriminate].
   apply term_eqb_eq in E. subst. inv H.
-  cbn. rewrite !pat_eqb_refl. unfold rn_tracker, set_tstack. cbn. rewrite Hmk. reflexivity.
+  cbn. rewrite !pat_eqb_refl. unfold rn_tracker, set_tstack, rn_sterm. cbn. rewrite Hmk. reflexivity.
 Qed.
 
 Lemma rn_term_if : forall (b:bool) p q,
@@ -60,18 +60,17 @@ Proof.
   destruct d as [|kv d].
   - cbn [rn_delta map]. destruct b.
     + destruct s; [|discriminate]. inv H. reflexivity.
-    + inv H. cbn. reflexivity.
-  - remember (kv :: d) as dd eqn:Edd.
-    assert (Hnn : rn_delta f dd = (fst kv, rn f (snd kv)) :: rn_delta f d) by (subst dd; reflexivity).
-    rewrite Hnn. rewrite <- Hnn. clear Hnn.
+    + inv H. unfold set_tstack, rn_tracker, rn_sterm. cbn. rewrite (rn_py_inst f p []). reflexivity.
+  - change (rn_delta f (kv :: d)) with ((fst kv, rn f (snd kv)) :: rn_delta f d).
+    cbv iota in H. cbv iota.
+    change ((fst kv, rn f (snd kv)) :: rn_delta f d) with (rn_delta f (kv :: d)).
+    set (dd := kv :: d) in *. clearbody dd.
     rewrite length_rn_delta, map_snd_rn_delta, <- map_rev, firstn_map.
-    destruct (plugs_match (firstn (length dd) s) (rev (map snd dd))) eqn:E; [|subst dd; discriminate].
-    rewrite (plugs_match_rn _ _ E).
-    assert (H' : Some (set_tstack (((if b then TProved (py_inst p dd) else TPat (py_inst p dd)), false)
-                                   :: skipn (length dd) s) (mktr ph ((if b then TProved p else TPat p, m) :: s) me cl jo)) = Some tr')
-      by (subst dd; exact H).
-    inv H'. unfold set_tstack, rn_tracker. cbn. rewrite skipn_map, <- rn_py_inst.
-    destruct b; reflexivity.
+    destruct (plugs_match (firstn (length dd) s) (rev (map snd dd))) eqn:E; [|discriminate].
+    rewrite (plugs_match_rn _ _ E). inv H.
+    unfold set_tstack, rn_tracker.
+    cbn [t_phase t_stack t_memory t_claims t_journal map].
+    rewrite skipn_map. unfold rn_sterm at 2. cbn [fst snd]. rewrite rn_term_if, <- rn_py_inst. reflexivity.
 Qed.
 
 Lemma top_is_rn : forall t s, top_is t s = true -> top_is (rn_term f t) (map (rn_sterm f) s) = true.
@@ -155,20 +154,553 @@ Proof.
     destruct ph; try discriminate. destruct cl as [|c cs]; [discriminate|].
     destruct (pat_eqb p c && top_is (TProved p) st) eqn:E; [|discriminate]. inv H.
     apply andb_true_iff in E. destruct E as [E1 E2].
-    cbn. rewrite (pat_eqb_rn f _ _ E1). rewrite (top_is_rn (TProved p) _ E2). cbn.
+    cbn. rewrite (pat_eqb_rn f _ _ E1). pose proof (top_is_rn (TProved p) _ E2) as E2'. cbn [rn_term] in E2'. rewrite E2'. cbn.
     unfold rn_tracker. cbn. rewrite mark_top_rn. reflexivity.
   - (* publish axiom *)
     destruct tr as [ph st me cl jo]. cbn in *.
     destruct ph; try discriminate.
     destruct (top_is (TPat p) st) eqn:E; [|discriminate]. inv H.
-    rewrite (top_is_rn (TPat p) _ E). unfold rn_tracker. cbn. rewrite mark_top_rn, map_app. reflexivity.
+    pose proof (top_is_rn (TPat p) _ E) as E'. cbn [rn_term] in E'. rewrite E'. unfold rn_tracker. cbn. rewrite mark_top_rn, map_app. reflexivity.
   - (* publish claim *)
     destruct tr as [ph st me cl jo]. cbn in *.
     destruct ph; try discriminate.
     destruct (top_is (TPat p) st) eqn:E; [|discriminate]. inv H.
-    rewrite (top_is_rn (TPat p) _ E). unfold rn_tracker. cbn. rewrite mark_top_rn. reflexivity.
+    pose proof (top_is_rn (TPat p) _ E) as E'. cbn [rn_term] in E'. rewrite E'. unfold rn_tracker. cbn. rewrite mark_top_rn. reflexivity.
   - destruct tr as [ph st me cl jo]. cbn in *. destruct ph; try discriminate. inv H. reflexivity.
   - destruct tr as [ph st me cl jo]. cbn in *. destruct ph; try discriminate. inv H. reflexivity.
 Qed.
 
 End StepRn.
+
+(* ------------------------------------------------------------------------------------------ *)
+(** * The symbol table *)
+
+Definition agrees (f:N -> N) (tbl:symtab) : Prop :=
+  forall name i, idx_of name tbl = Some i -> f name = N.of_nat i.
+
+Lemma idx_from_app_hit : forall tbl more k name i,
+  idx_from k name tbl = Some i -> idx_from k name (tbl ++ more) = Some i.
+Proof.
+  induction tbl as [|n tbl IH]; intros more k name i H; cbn in *; [discriminate|].
+  destruct (N.eqb n name); [exact H | apply IH; exact H].
+Qed.
+
+Lemma idx_from_app_miss : forall tbl k name,
+  idx_from k name tbl = None -> idx_from k name (tbl ++ [name]) = Some (k + length tbl)%nat.
+Proof.
+  induction tbl as [|n tbl IH]; intros k name H; cbn in *.
+  - rewrite N.eqb_refl. f_equal. lia.
+  - destruct (N.eqb n name); [discriminate|]. rewrite IH by exact H. f_equal. lia.
+Qed.
+
+Lemma agrees_prefix : forall f tbl more, agrees f (tbl ++ more) -> agrees f tbl.
+Proof.
+  intros f tbl more H name i Hi. apply H. unfold idx_of in *. apply idx_from_app_hit. exact Hi.
+Qed.
+
+Lemma numbering_agrees : forall tbl, agrees (numbering tbl) tbl.
+Proof. intros tbl name i H. unfold numbering. rewrite H. reflexivity. Qed.
+
+Lemma bytes_some : forall l l', bytes l = Some l' -> l' = l.
+Proof. intros l l' H. unfold bytes in H. destruct (forallb byte_ok l); congruence. Qed.
+
+Lemma with_tbl_some : forall tbl o tbl' bs,
+  with_tbl tbl o = Some (tbl', bs) -> tbl' = tbl /\ o = Some bs.
+Proof. intros tbl [l|] tbl' bs H; cbn in H; inv H. split; reflexivity. Qed.
+
+Lemma emit_extends : forall tbl tr c tbl' bs,
+  emit tbl tr c = Some (tbl', bs) -> exists more, tbl' = tbl ++ more.
+Proof.
+  intros tbl tr c tbl' bs H.
+  destruct c; cbn in H;
+    try (apply with_tbl_some in H; destruct H as [-> _]; exists []; rewrite app_nil_r; reflexivity);
+    try (inv H; exists []; rewrite app_nil_r; reflexivity).
+  - destruct (idx_of name tbl).
+    + apply with_tbl_some in H. destruct H as [-> _]. exists []. rewrite app_nil_r. reflexivity.
+    + apply with_tbl_some in H. destruct H as [-> _]. exists [name]. reflexivity.
+  - destruct (is_nil ef && is_nil sf && is_nil pos && is_nil neg && is_nil holes);
+      apply with_tbl_some in H; destruct H as [-> _]; exists []; rewrite app_nil_r; reflexivity.
+  - destruct (index_of t (t_memory tr)); [|discriminate].
+    apply with_tbl_some in H. destruct H as [-> _]. exists []. rewrite app_nil_r. reflexivity.
+Qed.
+
+(* ------------------------------------------------------------------------------------------ *)
+(** * Operand readers on what the serialiser wrote *)
+
+Lemma take_n_app : forall l r, take_n (length l) (l ++ r) = Some (l, r).
+Proof. induction l as [|x l IH]; intro r; cbn; [reflexivity | rewrite IH; reflexivity]. Qed.
+
+Lemma read_vec_vec : forall l r, read_vec (vec l ++ r) = Some (l, r).
+Proof. intros l r. unfold vec, read_vec. cbn. rewrite Nat2N.id. apply take_n_app. Qed.
+
+Lemma take_n_short : forall n bs, (length bs < n)%nat -> take_n n bs = None.
+Proof.
+  induction n as [|n IH]; intros bs H; [lia|]. destruct bs as [|b bs]; cbn; [reflexivity|].
+  rewrite IH; [reflexivity | cbn in H; lia].
+Qed.
+
+Lemma index_from_nth : forall m k t i,
+  index_from k t m = Some i -> (k <= i)%nat /\ nth_error m (i - k) = Some t.
+Proof.
+  induction m as [|u m IH]; intros k t i H; cbn in H; [discriminate|].
+  destruct (term_eqb u t) eqn:E.
+  - inv H. apply term_eqb_eq in E. subst. rewrite Nat.sub_diag. split; [lia | reflexivity].
+  - apply IH in H. destruct H as [H1 H2]. split; [lia|].
+    replace (i - k)%nat with (S (i - S k)) by lia. exact H2.
+Qed.
+
+Lemma index_of_nth : forall m t i, index_of t m = Some i -> nth_error m i = Some t.
+Proof.
+  intros m t i H. apply index_from_nth in H. destruct H as [_ H]. rewrite Nat.sub_0_r in H. exact H.
+Qed.
+
+Lemma peek_plugs_match : forall f vs s,
+  plugs_match (firstn (length vs) s) vs = true ->
+  peek_plugs (length vs) (map (rn_sterm f) s) = Some (map (rn f) vs).
+Proof.
+  induction vs as [|v vs IH]; intros s H; [reflexivity|].
+  destruct s as [|[t m] s]; cbn in H; [discriminate|].
+  apply andb_true_iff in H. destruct H as [H1 H2]. apply term_eqb_eq in H1. subst t.
+  cbn. rewrite IH by exact H2. reflexivity.
+Qed.
+
+Lemma plugs_match_length : forall s vs, plugs_match s vs = true -> length s = length vs.
+Proof.
+  induction s as [|[t m] s IH]; destruct vs as [|v vs]; cbn; intro H; try discriminate; [reflexivity|].
+  apply andb_true_iff in H. destruct H as [_ H]. f_equal. apply IH. exact H.
+Qed.
+
+(** [dict(pairs)] of pairwise distinct keys is the list of pairs itself *)
+Definition key_in (k:N) (d:delta) : bool := existsb (fun e => N.eqb (fst e) k) d.
+
+Lemma dict_set_fresh : forall k v d, key_in k d = false -> dict_set k v d = d ++ [(k, v)].
+Proof.
+  induction d as [|[k' v'] d IH]; cbn; intro H; [reflexivity|].
+  apply orb_false_iff in H. destruct H as [H1 H2]. rewrite H1, IH by exact H2. reflexivity.
+Qed.
+
+Lemma key_in_app : forall k a b, key_in k (a ++ b) = key_in k a || key_in k b.
+Proof. intros. unfold key_in. apply existsb_app. Qed.
+
+Lemma fold_dict_nodup : forall d acc,
+  nodup_keys d = true -> (forall k v, In (k, v) d -> key_in k acc = false) ->
+  fold_left (fun a kv => dict_set (fst kv) (snd kv) a) d acc = acc ++ d.
+Proof.
+  induction d as [|[k v] d IH]; intros acc Hn Hd; cbn; [rewrite app_nil_r; reflexivity|].
+  cbn in Hn. apply andb_true_iff in Hn. destruct Hn as [Hk Hn].
+  rewrite dict_set_fresh by (apply (Hd k v); left; reflexivity).
+  rewrite IH; [rewrite <- app_assoc; reflexivity | exact Hn |].
+  intros k' v' Hin. rewrite key_in_app. cbn. rewrite orb_false_r.
+  rewrite (Hd k' v') by (right; exact Hin). cbn.
+  apply negb_true_iff in Hk. destruct (N.eqb k k') eqn:E; [|reflexivity].
+  apply N.eqb_eq in E. subst k'. exfalso.
+  assert (X : existsb (fun e : N * pat => N.eqb (fst e) k) d = true).
+  { apply existsb_exists. exists (k, v'). split; [exact Hin | cbn; apply N.eqb_refl]. }
+  congruence.
+Qed.
+
+Lemma mk_dict_nodup : forall d, nodup_keys d = true -> mk_dict d = d.
+Proof.
+  intros d H. unfold mk_dict. rewrite fold_dict_nodup; [reflexivity | exact H | reflexivity].
+Qed.
+
+Lemma combine_fst_snd : forall (d:delta), combine (map fst d) (map snd d) = d.
+Proof. induction d as [|[k v] d IH]; cbn; congruence. Qed.
+
+Lemma combine_app_eq : forall (A B:Type) (a a':list A) (b b':list B),
+  length a = length b -> combine (a ++ a') (b ++ b') = combine a b ++ combine a' b'.
+Proof.
+  intros A B a. induction a as [|x a IH]; intros a' b b' H; destruct b as [|y b]; cbn in *; try lia; [reflexivity|].
+  rewrite IH by lia. reflexivity.
+Qed.
+
+Lemma rev_combine_rev : forall (A B:Type) (a:list A) (b:list B),
+  length a = length b -> rev (combine (rev a) (rev b)) = combine a b.
+Proof.
+  intros A B a. induction a as [|x a IH]; intros b H; destruct b as [|y b]; cbn in *; try lia; [reflexivity|].
+  assert (Hl : length (rev a) = length (rev b)) by (rewrite !rev_length; lia).
+  rewrite combine_app_eq by exact Hl. rewrite rev_app_distr. cbn. rewrite IH by lia. reflexivity.
+Qed.
+
+(* ------------------------------------------------------------------------------------------ *)
+(** * Inversion of successful tracker steps (shape of the stack) *)
+
+Lemma binary_inv : forall mk l r tr tr',
+  binary mk l r tr = Some tr' -> exists mr ml s, t_stack tr = (TPat r, mr) :: (TPat l, ml) :: s.
+Proof.
+  intros mk l r tr tr' H. unfold binary in H.
+  destruct (t_stack tr) as [|[er mr] [|[el ml] s]]; try discriminate.
+  destruct (term_eqb el (TPat l) && term_eqb er (TPat r)) eqn:E; [|discriminate].
+  apply andb_true_iff in E. destruct E as [E1 E2]. apply term_eqb_eq in E1, E2. subst.
+  exists mr, ml, s. reflexivity.
+Qed.
+
+Lemma unary_inv : forall mk p tr tr',
+  unary mk p tr = Some tr' -> exists m s, t_stack tr = (TPat p, m) :: s.
+Proof.
+  intros mk p tr tr' H. unfold unary in H.
+  destruct (t_stack tr) as [|[e m] s]; try discriminate.
+  destruct (term_eqb e (TPat p)) eqn:E; [|discriminate]. apply term_eqb_eq in E. subst.
+  exists m, s. reflexivity.
+Qed.
+
+Lemma do_instantiate_inv : forall b p d tr tr',
+  do_instantiate b p d tr = Some tr' ->
+  nodup_keys d = true /\
+  exists m s, t_stack tr = ((if b then TProved p else TPat p), m) :: s /\
+              plugs_match (firstn (length d) s) (rev (map snd d)) = true.
+Proof.
+  intros b p d tr tr' H. unfold do_instantiate in H.
+  destruct (nodup_keys d); [|discriminate]. split; [reflexivity|]. cbn in H.
+  destruct (t_stack tr) as [|[t m] s]; [discriminate|].
+  destruct (term_eqb t (if b then TProved p else TPat p)) eqn:E; [|discriminate].
+  apply term_eqb_eq in E. subst t. exists m, s. split; [reflexivity|].
+  destruct d as [|kv d]; [reflexivity|].
+  destruct (plugs_match (firstn (length (kv :: d)) s) (rev (map snd (kv :: d)))) eqn:E; [first [reflexivity | exact E] | discriminate].
+Qed.
+
+Lemma top_is_inv : forall t s, top_is t s = true -> exists m s', s = (t, m) :: s'.
+Proof.
+  intros t [|[u m] s'] H; cbn in H; [discriminate|]. apply term_eqb_eq in H. subst. exists m, s'. reflexivity.
+Qed.
+
+(* ------------------------------------------------------------------------------------------ *)
+(** * Decoding what one call wrote gives the (renamed) call back *)
+
+Ltac emit_simple He :=
+  apply with_tbl_some in He; destruct He as [-> He]; apply bytes_some in He; subst.
+
+Lemma is_nil_true : forall (A:Type) (l:list A), is_nil l = true -> l = [].
+Proof. intros A [|x l] H; [reflexivity | discriminate]. Qed.
+
+Lemma decode_emit : forall f tbl tr c tr1 tbl' bs rest,
+  stateful_step tr c = Some tr1 -> emit tbl tr c = Some (tbl', bs) -> is_switch c = false ->
+  agrees f tbl' ->
+  exists op ops, bs = op :: ops /\ N.eqb op 0 = false /\
+    decode dflags_fixed op (ops ++ rest) (rn_tracker f tr) = Some (Some (rn_call f c), rest).
+Proof.
+  intros f tbl tr c tr1 tbl' bs rest Hs He Hsw Hf.
+  destruct c; cbn [emit] in He; cbn [stateful_step] in Hs; try discriminate.
+  - emit_simple He. exists 2, [id]. repeat split.
+  - emit_simple He. exists 3, [id]. repeat split.
+  - (* symbol *)
+    destruct (idx_of name tbl) as [i|] eqn:Ei.
+    + emit_simple He. exists 4, [N.of_nat i]. repeat split. cbn. rewrite (Hf name i Ei). reflexivity.
+    + emit_simple He. exists 4, [N.of_nat (length tbl)]. repeat split. cbn.
+      rewrite (Hf name (length tbl)); [reflexivity|].
+      unfold idx_of in *. rewrite (idx_from_app_miss _ _ _ Ei). reflexivity.
+  - (* metavar *)
+    destruct (is_nil ef && is_nil sf && is_nil pos && is_nil neg && is_nil holes) eqn:En.
+    + emit_simple He.
+      repeat (apply andb_true_iff in En; destruct En as [En ?]).
+      repeat match goal with H : is_nil _ = true |- _ => apply is_nil_true in H end. subst.
+      exists 137, [id]. repeat split.
+    + emit_simple He. exists 9, (id :: vec ef ++ vec sf ++ vec pos ++ vec neg ++ vec holes). repeat split.
+      cbn [decode app]. rewrite <- !app_assoc. rewrite !read_vec_vec. cbn [dflags_fixed df_metavar_ints andb].
+      reflexivity.
+  - inv He. apply binary_inv in Hs. destruct Hs as (mr & ml & s & Hst).
+    exists 5, []. repeat split. destruct tr as [ph st me cl jo]. cbn in Hst. subst st. reflexivity.
+  - inv He. apply binary_inv in Hs. destruct Hs as (mr & ml & s & Hst).
+    exists 6, []. repeat split. destruct tr as [ph st me cl jo]. cbn in Hst. subst st. reflexivity.
+  - emit_simple He. apply unary_inv in Hs. destruct Hs as (m & s & Hst).
+    exists 8, [x]. repeat split. destruct tr as [ph st me cl jo]. cbn in Hst. subst st. reflexivity.
+  - emit_simple He. apply unary_inv in Hs. destruct Hs as (m & s & Hst).
+    exists 7, [X]. repeat split. destruct tr as [ph st me cl jo]. cbn in Hst. subst st. reflexivity.
+  - (* esubst *)
+    emit_simple He. destruct tr as [ph st me cl jo]. cbn in Hs.
+    destruct st as [|[ep mp] [|[eg mg] s]]; try discriminate.
+    destruct (term_eqb ep (TPat p) && term_eqb eg (TPat plug)) eqn:E; [|discriminate].
+    apply andb_true_iff in E. destruct E as [E1 E2]. apply term_eqb_eq in E1, E2. subst.
+    exists 10, [x]. repeat split.
+  - emit_simple He. destruct tr as [ph st me cl jo]. cbn in Hs.
+    destruct st as [|[ep mp] [|[eg mg] s]]; try discriminate.
+    destruct (term_eqb ep (TPat p) && term_eqb eg (TPat plug)) eqn:E; [|discriminate].
+    apply andb_true_iff in E. destruct E as [E1 E2]. apply term_eqb_eq in E1, E2. subst.
+    exists 11, [X]. repeat split.
+  - inv He. exists 12, []. repeat split.
+  - inv He. exists 13, []. repeat split.
+  - inv He. exists 14, []. repeat split.
+  - inv He. exists 15, []. repeat split.
+  - (* modus ponens *)
+    inv He. destruct tr as [ph st me cl jo]. cbn in Hs.
+    destruct st as [|[er mr] [|[el ml] s]]; try discriminate.
+    destruct (term_eqb el (TProved l) && term_eqb er (TProved r)) eqn:E; [|discriminate].
+    apply andb_true_iff in E. destruct E as [E1 E2]. apply term_eqb_eq in E1, E2. subst.
+    exists 21, []. repeat split.
+  - (* generalization *)
+    emit_simple He. destruct tr as [ph st me cl jo]. cbn in Hs.
+    destruct st as [|[e m] s]; try discriminate.
+    destruct (term_eqb e (TProved p)) eqn:E; [|discriminate]. apply term_eqb_eq in E. subst.
+    exists 22, [x]. repeat split.
+  - (* instantiate (proved) *)
+    emit_simple He. apply do_instantiate_inv in Hs. destruct Hs as (Hn & m & s & Hst & Hp).
+    exists 26, (N.of_nat (length d) :: rev (map fst d)). repeat split.
+    destruct tr as [ph st me cl jo]. cbn in Hst. subst st.
+    cbn [decode app t_stack rn_tracker map rn_sterm fst snd rn_term].
+    rewrite Nat2N.id.
+    replace (length d) with (length (rev (map fst d))) at 1 by (rewrite rev_length, map_length; reflexivity).
+    rewrite take_n_app.
+    replace (length d) with (length (rev (map snd d))) by (rewrite rev_length, map_length; reflexivity).
+    rewrite (peek_plugs_match f (rev (map snd d)) s)
+      by (rewrite rev_length, map_length; exact Hp).
+    rewrite map_rev, rev_combine_rev by (rewrite !map_length; reflexivity).
+    rewrite <- map_snd_rn_delta, <- (map_fst_rn_delta f d), combine_fst_snd.
+    rewrite mk_dict_nodup by (rewrite nodup_keys_rn; exact Hn). reflexivity.
+  - (* instantiate_pattern *)
+    emit_simple He. apply do_instantiate_inv in Hs. destruct Hs as (Hn & m & s & Hst & Hp).
+    exists 26, (N.of_nat (length d) :: rev (map fst d)). repeat split.
+    destruct tr as [ph st me cl jo]. cbn in Hst. subst st.
+    cbn [decode app t_stack rn_tracker map rn_sterm fst snd rn_term].
+    rewrite Nat2N.id.
+    replace (length d) with (length (rev (map fst d))) at 1 by (rewrite rev_length, map_length; reflexivity).
+    rewrite take_n_app.
+    replace (length d) with (length (rev (map snd d))) by (rewrite rev_length, map_length; reflexivity).
+    rewrite (peek_plugs_match f (rev (map snd d)) s)
+      by (rewrite rev_length, map_length; exact Hp).
+    rewrite map_rev, rev_combine_rev by (rewrite !map_length; reflexivity).
+    rewrite <- map_snd_rn_delta, <- (map_fst_rn_delta f d), combine_fst_snd.
+    rewrite mk_dict_nodup by (rewrite nodup_keys_rn; exact Hn). reflexivity.
+  - (* pop *)
+    inv He. destruct tr as [ph st me cl jo]. cbn in Hs.
+    destruct st as [|[e m] s]; try discriminate.
+    destruct (term_eqb e t) eqn:E; [|discriminate]. apply term_eqb_eq in E. subst.
+    exists 27, []. repeat split.
+  - (* save *)
+    inv He. destruct (top_is t (t_stack tr)) eqn:E; [|discriminate].
+    apply top_is_inv in E. destruct E as (m & s & Hst).
+    destruct tr as [ph st me cl jo]. cbn in Hst. subst st.
+    exists 28, []. repeat split.
+  - (* load *)
+    destruct (index_of t (t_memory tr)) as [i|] eqn:Ei; [|discriminate].
+    emit_simple He. exists 29, [N.of_nat i]. repeat split.
+    destruct tr as [ph st me cl jo]. cbn in *. rewrite Nat2N.id.
+    rewrite (map_nth_error (rn_term f) _ _ (index_of_nth _ _ _ Ei)). reflexivity.
+  - (* publish proof *)
+    inv He. destruct tr as [ph st me cl jo]. cbn in Hs.
+    destruct ph; try discriminate. destruct cl as [|c cs]; [discriminate|].
+    destruct (pat_eqb p c && top_is (TProved p) st) eqn:E; [|discriminate].
+    apply andb_true_iff in E. destruct E as [E1 E2]. apply pat_eqb_eq in E1. subst c.
+    apply top_is_inv in E2. destruct E2 as (m & s & ->).
+    exists 30, []. repeat split. cbn. rewrite pat_eqb_refl. reflexivity.
+  - (* publish axiom *)
+    inv He. destruct tr as [ph st me cl jo]. cbn in Hs.
+    destruct ph; try discriminate.
+    destruct (top_is (TPat p) st) eqn:E; [|discriminate].
+    apply top_is_inv in E. destruct E as (m & s & ->).
+    exists 30, []. repeat split.
+  - (* publish claim *)
+    inv He. destruct tr as [ph st me cl jo]. cbn in Hs.
+    destruct ph; try discriminate.
+    destruct (top_is (TPat p) st) eqn:E; [|discriminate].
+    apply top_is_inv in E. destruct E as (m & s & ->).
+    exists 30, []. repeat split.
+Qed.
+
+(* ------------------------------------------------------------------------------------------ *)
+(** * Round trip *)
+
+Lemma ser_step_extends : forall tbl tr c tbl' tr' bs,
+  ser_step tbl tr c = Some (tbl', tr', bs) -> exists more, tbl' = tbl ++ more.
+Proof.
+  intros tbl tr c tbl' tr' bs H. unfold ser_step in H.
+  destruct (stateful_step tr c); [|discriminate].
+  destruct (emit tbl tr c) as [[tb0 bb0]|] eqn:E; [|discriminate]. inv H. eapply emit_extends. exact E.
+Qed.
+
+Lemma ser_run_extends : forall cs tbl tr tbl' tr' bs,
+  ser_run tbl tr cs = Some (tbl', tr', bs) -> exists more, tbl' = tbl ++ more.
+Proof.
+  induction cs as [|c cs IH]; intros tbl tr tbl' tr' bs H; cbn in H.
+  - inv H. exists []. rewrite app_nil_r. reflexivity.
+  - destruct (is_switch c); [discriminate|].
+    destruct (ser_step tbl tr c) as [[[t1 tr1] b1]|] eqn:E1; [|discriminate].
+    destruct (ser_run t1 tr1 cs) as [[[t2 tr2] b2]|] eqn:E2; [|discriminate]. inv H.
+    apply ser_step_extends in E1. destruct E1 as [m1 ->].
+    apply IH in E2. destruct E2 as [m2 ->]. exists (m1 ++ m2). rewrite app_assoc. reflexivity.
+Qed.
+
+Lemma ser_run_stateful : forall cs tbl tr tbl' tr' bs,
+  ser_run tbl tr cs = Some (tbl', tr', bs) -> stateful_run tr cs = Some tr'.
+Proof.
+  induction cs as [|c cs IH]; intros tbl tr tbl' tr' bs H; cbn in *.
+  - inv H. reflexivity.
+  - destruct (is_switch c); [discriminate|]. unfold ser_step in H.
+    destruct (stateful_step tr c) as [tr1|]; [|discriminate].
+    destruct (emit tbl tr c) as [[t1 b1]|]; [|discriminate].
+    destruct (ser_run t1 tr1 cs) as [[[t2 tr2] b2]|] eqn:E2; [|discriminate]. inv H.
+    eapply IH. exact E2.
+Qed.
+
+(** the bytes of a run, followed by anything: the deserialiser replays the run and continues on the rest *)
+Lemma roundtrip_app : forall f cs tbl tr tblF trF bs,
+  ser_run tbl tr cs = Some (tblF, trF, bs) -> agrees f tblF ->
+  forall more n, (length bs + length more <= n)%nat ->
+  exists n', (length more <= n')%nat /\
+    deser_fuel dflags_fixed n (bs ++ more) (rn_tracker f tr) = deser_fuel dflags_fixed n' more (rn_tracker f trF).
+Proof.
+  induction cs as [|c cs IH]; intros tbl tr tblF trF bs H Hf more n Hn; cbn in H.
+  - inv H. exists n. split; [cbn in Hn; lia | reflexivity].
+  - destruct (is_switch c) eqn:Esw; [discriminate|].
+    destruct (ser_step tbl tr c) as [[[t1 tr1] b1]|] eqn:E1; [|discriminate].
+    destruct (ser_run t1 tr1 cs) as [[[t2 tr2] b2]|] eqn:E2; [|discriminate]. inv H.
+    pose proof (ser_run_extends _ _ _ _ _ _ E2) as [m2 Hm2]. subst tblF.
+    unfold ser_step in E1.
+    destruct (stateful_step tr c) as [tr1'|] eqn:Es; [|discriminate].
+    destruct (emit tbl tr c) as [[t1' b1']|] eqn:Ee; [|discriminate]. inv E1.
+    destruct (decode_emit f tbl tr c tr1 t1 b1 (b2 ++ more) Es Ee Esw (agrees_prefix _ _ _ Hf))
+      as (op & ops & -> & Hop & Hdec).
+    rewrite app_length in Hn. cbn [length] in Hn.
+    destruct n as [|n]; [lia|].
+    destruct (IH t1 tr1 _ trF b2 E2 Hf more n ltac:(lia)) as (n' & Hn' & Hrun).
+    exists n'. split; [exact Hn'|].
+    rewrite <- app_assoc. cbn [app deser_fuel]. rewrite Hop. cbn [andb].
+    rewrite Hdec. rewrite (stateful_step_rn f _ _ _ Es). exact Hrun.
+Qed.
+
+Theorem roundtrip : forall cs tbl tr tblF trF bs,
+  ser_run tbl tr cs = Some (tblF, trF, bs) ->
+  deser dflags_fixed bs (rn_tracker (numbering tblF) tr) = Some (rn_tracker (numbering tblF) trF).
+Proof.
+  intros cs tbl tr tblF trF bs H.
+  destruct (roundtrip_app (numbering tblF) cs tbl tr tblF trF bs H (numbering_agrees tblF) [] (length bs))
+    as (n' & _ & Hrun); [cbn; lia|].
+  unfold deser. rewrite app_nil_r in Hrun. rewrite Hrun. destruct n'; reflexivity.
+Qed.
+
+(* ------------------------------------------------------------------------------------------ *)
+(** * Unknown and truncated input *)
+
+Definition handled (op:N) : bool :=
+  existsb (N.eqb op) [2;3;4;5;6;7;8;9;10;11;12;13;14;15;21;22;26;27;28;29;30;137].
+
+Lemma decode_unknown : forall df op bs tr, handled op = false -> decode df op bs tr = None.
+Proof.
+  intros df op bs tr H. destruct op as [|p]; [reflexivity|].
+  do 8 (try destruct p as [p|p|]); try reflexivity; try (cbn in H; discriminate H).
+Qed.
+
+Theorem deser_rejects_unknown : forall op rest tr,
+  handled op = false -> deser dflags_fixed (op :: rest) tr = None.
+Proof.
+  intros op rest tr H. unfold deser. cbn [length deser_fuel dflags_fixed df_zero_stops].
+  rewrite andb_false_r. rewrite decode_unknown by exact H. reflexivity.
+Qed.
+
+Lemma read_vec_firstn_short : forall l r k,
+  (k < S (length l))%nat -> read_vec (firstn k (vec l ++ r)) = None.
+Proof.
+  intros l r k H. destruct k as [|j]; [reflexivity|].
+  unfold vec. cbn [app firstn read_vec]. rewrite Nat2N.id. apply take_n_short.
+  rewrite firstn_length. lia.
+Qed.
+
+Lemma read_vec_firstn_long : forall l r k,
+  (S (length l) <= k)%nat -> read_vec (firstn k (vec l ++ r)) = Some (l, firstn (k - S (length l)) r).
+Proof.
+  intros l r k H. destruct k as [|j]; [lia|].
+  unfold vec. cbn [app firstn read_vec]. rewrite Nat2N.id.
+  rewrite firstn_app. rewrite (firstn_all2 l) by lia.
+  replace (S j - S (length l))%nat with (j - length l)%nat by lia. apply take_n_app.
+Qed.
+
+Lemma vec_length : forall l, length (vec l) = S (length l).
+Proof. reflexivity. Qed.
+
+(** a stream cut inside the operands of an instruction the serialiser wrote is an error *)
+Opaque vec.
+Lemma decode_truncated : forall tbl tr c tbl' op ops k tr',
+  emit tbl tr c = Some (tbl', op :: ops) -> (k < length ops)%nat ->
+  decode dflags_fixed op (firstn k ops) tr' = None.
+Proof.
+  intros tbl tr c tbl' op ops k tr' He Hk.
+  destruct c; cbn [emit] in He;
+    try (emit_simple He; inv He; cbn in Hk; destruct k; [reflexivity | lia]);
+    try (inv He; cbn in Hk; lia).
+  - (* symbol *)
+    destruct (idx_of name tbl); emit_simple He; inv He; cbn in Hk; (destruct k; [reflexivity | lia]).
+  - (* metavar *)
+    destruct (is_nil ef && is_nil sf && is_nil pos && is_nil neg && is_nil holes).
+    + emit_simple He. inv He. cbn in Hk. destruct k; [reflexivity | lia].
+    + emit_simple He. inv He. cbn [length] in Hk. rewrite !app_length, !vec_length in Hk.
+      destruct k as [|k]; [reflexivity|]. cbn [firstn decode].
+      destruct (Nat.ltb k (S (length ef))) eqn:E1; [apply Nat.ltb_lt in E1|apply Nat.ltb_ge in E1].
+      { rewrite read_vec_firstn_short by exact E1. reflexivity. }
+      rewrite read_vec_firstn_long by exact E1.
+      destruct (Nat.ltb (k - S (length ef)) (S (length sf))) eqn:E2; [apply Nat.ltb_lt in E2|apply Nat.ltb_ge in E2].
+      { rewrite read_vec_firstn_short by exact E2. reflexivity. }
+      rewrite read_vec_firstn_long by exact E2.
+      destruct (Nat.ltb (k - S (length ef) - S (length sf)) (S (length pos))) eqn:E3;
+        [apply Nat.ltb_lt in E3|apply Nat.ltb_ge in E3].
+      { rewrite read_vec_firstn_short by exact E3. reflexivity. }
+      rewrite read_vec_firstn_long by exact E3.
+      destruct (Nat.ltb (k - S (length ef) - S (length sf) - S (length pos)) (S (length neg))) eqn:E4;
+        [apply Nat.ltb_lt in E4|apply Nat.ltb_ge in E4].
+      { rewrite read_vec_firstn_short by exact E4. reflexivity. }
+      rewrite read_vec_firstn_long by exact E4.
+      rewrite <- (app_nil_r (vec holes)).
+      rewrite read_vec_firstn_short by lia. reflexivity.
+  - (* instantiate *)
+    emit_simple He. inv He. cbn [length] in Hk. rewrite rev_length, map_length in Hk.
+    destruct k as [|k]; [reflexivity|]. cbn [firstn decode]. rewrite Nat2N.id.
+    rewrite take_n_short; [reflexivity|]. rewrite firstn_length, rev_length, map_length. lia.
+  - emit_simple He. inv He. cbn [length] in Hk. rewrite rev_length, map_length in Hk.
+    destruct k as [|k]; [reflexivity|]. cbn [firstn decode]. rewrite Nat2N.id.
+    rewrite take_n_short; [reflexivity|]. rewrite firstn_length, rev_length, map_length. lia.
+  - (* load *)
+    destruct (index_of t (t_memory tr)); [|discriminate].
+    emit_simple He. inv He. cbn in Hk. destruct k; [reflexivity | lia].
+Qed.
+Transparent vec.
+
+(** a serialised run cut in the middle of its last instruction is an error *)
+Theorem deser_rejects_truncated : forall cs tbl tr tbl1 tr1 bs c tr2 tbl2 op ops k,
+  ser_run tbl tr cs = Some (tbl1, tr1, bs) ->
+  ser_step tbl1 tr1 c = Some (tbl2, tr2, op :: ops) -> (k < length ops)%nat ->
+  deser dflags_fixed (bs ++ op :: firstn k ops) (rn_tracker (numbering tbl1) tr) = None.
+Proof.
+  intros cs tbl tr tbl1 tr1 bs c tr2 tbl2 op ops k Hrun Hstep Hk.
+  set (more := op :: firstn k ops).
+  destruct (roundtrip_app (numbering tbl1) cs tbl tr tbl1 tr1 bs Hrun (numbering_agrees tbl1) more
+              (length (bs ++ more))) as (n' & Hn' & Hr); [rewrite app_length; lia|].
+  unfold deser. rewrite Hr. subst more. cbn [length] in Hn'. destruct n' as [|n']; [lia|].
+  unfold ser_step in Hstep. destruct (stateful_step tr1 c); [|discriminate].
+  destruct (emit tbl1 tr1 c) as [[tb0 bb0]|] eqn:Ee; [|discriminate]. inv Hstep.
+  cbn [deser_fuel dflags_fixed df_zero_stops]. rewrite andb_false_r.
+  rewrite (decode_truncated _ _ _ _ _ _ _ _ Ee Hk). reflexivity.
+Qed.
+
+Theorem roundtrip_f : forall f cs tbl tr tblF trF bs,
+  ser_run tbl tr cs = Some (tblF, trF, bs) -> agrees f tblF ->
+  deser dflags_fixed bs (rn_tracker f tr) = Some (rn_tracker f trF).
+Proof.
+  intros f cs tbl tr tblF trF bs H Hf.
+  destruct (roundtrip_app f cs tbl tr tblF trF bs H Hf [] (length bs)) as (n' & _ & Hrun); [cbn; lia|].
+  unfold deser. rewrite app_nil_r in Hrun. rewrite Hrun. destruct n'; reflexivity.
+Qed.
+
+(** the three files of a module, deserialised in sequence into one interpreter (with the two phase
+    switches in between), replay the whole generation; one numbering serves the three files *)
+Theorem roundtrip_module : forall tr0 gcs ccs pcs t1 tr1 gb tr1' t2 tr2 cb tr2' t3 tr3 pb,
+  ser_run [] tr0 gcs = Some (t1, tr1, gb) -> stateful_step tr1 CIntoClaim = Some tr1' ->
+  ser_run t1 tr1' ccs = Some (t2, tr2, cb) -> stateful_step tr2 CIntoProof = Some tr2' ->
+  ser_run t2 tr2' pcs = Some (t3, tr3, pb) ->
+  let f := numbering t3 in
+  exists d1 d1' d2 d2',
+    deser dflags_fixed gb (rn_tracker f tr0) = Some d1 /\ stateful_step d1 CIntoClaim = Some d1' /\
+    deser dflags_fixed cb d1' = Some d2 /\ stateful_step d2 CIntoProof = Some d2' /\
+    deser dflags_fixed pb d2' = Some (rn_tracker f tr3).
+Proof.
+  intros tr0 gcs ccs pcs t1 tr1 gb tr1' t2 tr2 cb tr2' t3 tr3 pb H1 S1 H2 S2 H3 f.
+  pose proof (ser_run_extends _ _ _ _ _ _ H2) as [m2 E2].
+  pose proof (ser_run_extends _ _ _ _ _ _ H3) as [m3 E3].
+  assert (F3 : agrees f t3) by apply numbering_agrees.
+  assert (F2 : agrees f t2) by (subst t3; eapply agrees_prefix; exact F3).
+  assert (F1 : agrees f t1) by (subst t2; eapply agrees_prefix; exact F2).
+  exists (rn_tracker f tr1), (rn_tracker f tr1'), (rn_tracker f tr2), (rn_tracker f tr2').
+  repeat split.
+  - eapply roundtrip_f; eassumption.
+  - apply (stateful_step_rn f _ _ _ S1).
+  - eapply roundtrip_f; eassumption.
+  - apply (stateful_step_rn f _ _ _ S2).
+  - eapply roundtrip_f; eassumption.
+Qed.
